@@ -305,6 +305,16 @@ func runC11(w *World, r *Report) {
 						emit(cfgEvent{Kind: "A", Node: x, Obj: o})
 					}
 				}
+				// binary.BigEndian.PutUintN(data[2:4], …): an in-place write into the bytes
+				if se, ok := unparen(c.Fun).(*ast.SelectorExpr); ok && strings.HasPrefix(se.Sel.Name, "PutUint") && len(c.Args) > 0 {
+					base := unparen(c.Args[0])
+					if sl, ok := base.(*ast.SliceExpr); ok {
+						base = unparen(sl.X)
+					}
+					if o := identObj(info, base); o != nil {
+						emit(cfgEvent{Kind: "A", Node: x, Obj: o})
+					}
+				}
 			}
 		}
 	}
